@@ -132,9 +132,11 @@ type SpecFile struct {
 	Axioms    []*Clause
 	Path      string
 	Keywords  map[string]int // scan: assume / trusted counts
+	LockOrder [][2]string              // declared lock levels: pairs a < b
+	LockWaits map[string]map[string]bool // lock -> operations a holder may block on
 }
 
-var itemKeywords = map[string]bool{"ghost": true, "datatype": true, "pure": true, "lock": true, "iface": true, "func": true, "atomic": true, "lemma": true, "axiom": true}
+var itemKeywords = map[string]bool{"ghost": true, "datatype": true, "pure": true, "lock": true, "iface": true, "func": true, "atomic": true, "lemma": true, "axiom": true, "lockorder": true, "lockwaits": true}
 var subKeywords = map[string]bool{"protects": true, "inv": true, "assigns": true, "held": true, "ensures": true, "ensures-internal": true, "requires": true, "safety": true,
 	"monitor": true, "let": true, "loop": true, "at": true, "arith": true, "conv": true, "panics": true, "bytes": true, "inline": true, "modular": true,
 	"discipline": true, "recv": true, "assume": true, "trusted": true, "strict": true, "forall": false, "hyp": true, "concl": true, "vars": true}
@@ -190,6 +192,33 @@ func ParseSpecFile(path string) (*SpecFile, error) {
 			return fmt.Errorf("%s:%d: %s", path, s.no, fmt.Sprintf(format, a...))
 		}
 		switch w {
+		case "lockorder":
+			reset()
+			parts := strings.Split(rest, "<")
+			if len(parts) < 2 {
+				return nil, fail("lockorder A < B [< C ...]")
+			}
+			for i := 0; i+1 < len(parts); i++ {
+				sf.LockOrder = append(sf.LockOrder, [2]string{strings.TrimSpace(parts[i]), strings.TrimSpace(parts[i+1])})
+			}
+		case "lockwaits":
+			reset()
+			i := strings.Index(rest, ":")
+			if i < 0 {
+				return nil, fail("lockwaits <lock>: op; op; ...")
+			}
+			lk := strings.TrimSpace(rest[:i])
+			if sf.LockWaits == nil {
+				sf.LockWaits = map[string]map[string]bool{}
+			}
+			if sf.LockWaits[lk] == nil {
+				sf.LockWaits[lk] = map[string]bool{}
+			}
+			for _, op := range strings.Split(rest[i+1:], ";") {
+				if op = strings.TrimSpace(op); op != "" {
+					sf.LockWaits[lk][op] = true
+				}
+			}
 		case "ghost":
 			reset()
 			f := strings.Fields(rest)
